@@ -277,15 +277,18 @@ class Gen:
                 spec['aliases'] = [fn + '_alias', 'al' + str(i)]
             elif q < 0.2:
                 spec['in_names'] = [fn + 'In', fn]
+                if r.random() < 0.5:
+                    spec['in_names_as_list'] = True     # `field(in_names=[...])`: the user's own list, not a tuple
             elif q < 0.28:
                 spec['rename'] = fn + 'Renamed'
             elif q < 0.34:
                 spec['out_name'] = fn + 'Out'
             if r.random() < 0.06:
                 spec['exclude'] = True
-                has_default = True
-                if not kw:
-                    seen_default = True
+                if r.random() < 0.6 or seen_default:
+                    has_default = True
+                    if not kw:
+                        seen_default = True
             if r.random() < 0.05:
                 spec['kw_only'] = True
                 if 'tuple' in in_format:
@@ -628,6 +631,8 @@ class HierGen(Gen):
             spec['aliases'] = [name + '_alias', 'al_' + name][: r.randint(1, 2)]
         elif q < 0.20:
             spec['in_names'] = [name + 'In'] + ([name] if r.random() < 0.5 else [])
+            if r.random() < 0.5:
+                spec['in_names_as_list'] = True     # `field(in_names=[...])`: the user's own list, not a tuple
         elif q < 0.27:
             spec['rename'] = name + 'Renamed'
         elif q < 0.33:
@@ -635,6 +640,9 @@ class HierGen(Gen):
         elif q < 0.35:
             spec['rename'] = name + 'R'
             spec['aliases'] = ['bad']          # more than one of rename/aliases/in_names: refused
+        elif q < 0.40:
+            spec['rename'] = name + 'Rn'       # allowed together: `rename` gives the input name, `out_name` the output name
+            spec['out_name'] = name + 'OUT'
         if r.random() < 0.07:
             spec['exclude'] = True
         if r.random() < 0.06:
@@ -796,12 +804,18 @@ def scenarios_process(seed, n, generic_share=0.4):
             m2 = list(m)
             while m2 == m:
                 r.shuffle(m2)
-            wrapu = lambda u: u    # directly: inside another generic alias typing's OWN cache already merges the two spellings
+            # directly, or inside a PEP 585 builtin generic (`list[int | float]`: these aliases are not cached by typing and
+            # compare equal regardless of the order); inside a `typing.List[...]` alias typing's OWN cache merges the two spellings
+            pep585 = r.random() < 0.5
+            wrapu = (lambda u: r.choice([{'seq': ['list', u]}, {'map': ['dict', ['str', u]]}, {'tuple': [u, 'str']}])) if pep585 else (lambda u: u)
+            wrap_pick = r.randrange(3)
+            if pep585:
+                wrapu = lambda u, k=wrap_pick: [{'seq': ['list', u]}, {'map': ['dict', ['str', u]]}, {'tuple': [u, 'str']}][k]
             gname = hg.fresh('GT')
             tw = [{'name': gname, 'fields': [{'name': 'x', 'ty': tv('T')}], 'opts': {}, 'hook': None, 'tvars': ['T']},
                   {'name': hg.fresh('GA'), 'fields': [], 'opts': {}, 'hook': None, 'base': {'cls': [gname, [wrapu({'union': m})]]}},
                   {'name': hg.fresh('GB'), 'fields': [], 'opts': {}, 'hook': None, 'base': {'cls': [gname, [wrapu({'union': m2})]]}}]
-            out.append({'id': f'p{seed}:{i}t', 'decl': hg.decl, 'op': 'process', 'decls': tw, 'stream': 'generic-twin', 'spell': 0})
+            out.append({'id': f'p{seed}:{i}t', 'decl': hg.decl, 'op': 'process', 'decls': tw, 'stream': 'generic-twin', 'spell': 1 if pep585 else 0})
     return out
 
 
@@ -822,6 +836,8 @@ def scenarios_construct(seed, n):
             d['opts']['in_format'] = ['tuple', 'struct']
         if r.random() < 0.2:
             d['opts']['frozen'] = False
+        if r.random() < 0.25:
+            d['opts']['allow_extra'] = True
         kw = False
         seen_default = False
         fnames = r.sample(['x', 'y', 'my_field', 'val', 'zz'], r.randint(1, 4))
@@ -837,6 +853,8 @@ def scenarios_construct(seed, n):
                 f['default'] = {'factory': 'list'} if (ty == {'seq': ['list', 'int']} and r.random() < 0.6) else {'value': ENC.enc(hg.valid(ty, 2))}
             if r.random() < 0.15:
                 f['spec'] = {'aliases': [fn + '_alias']}
+            elif r.random() < 0.1:
+                f['spec'] = {'exclude': True}     # written never, but a constructor parameter like any other
             d['fields'].append(f)
         inner_cls = None
         if r.random() < 0.3:
@@ -907,7 +925,13 @@ def scenarios_construct(seed, n):
                 continue
         elif path == 'from_data_struct':
             try:
-                sc.update(op='from_data', ty={'cls': [name, []]}, val=ENC.enc(dict(vals)))
+                data = dict(vals)
+                if d['opts'].get('allow_extra'):
+                    # ignored unknown keys, possibly as many as there are fields left out: defaults are still filled in and a
+                    # missing required field is still an error
+                    for j in range(r.randint(1, 4)):
+                        data['unknown%d' % j] = r.choice([1, 'u', None])
+                sc.update(op='from_data', ty={'cls': [name, []]}, val=ENC.enc(data))
                 json.dumps(sc)
             except Exception:
                 continue
@@ -1063,6 +1087,16 @@ def scenarios_tagged(seed, n):
             ty, v = {'seq': ['list', ty]}, [v]
         elif wrap < 0.30:
             ty, v = {'map': ['dict', ['str', ty]]}, {'k': v}
+        elif wrap < 0.38:
+            # a later member that takes ANY mapping: it sees the data as it was given (tag included) when the tagged member refuses
+            ty = {'union': [ty, {'map': ['dict', ['str', 'any']]}]}
+        elif wrap < 0.46:
+            # the tagged union as the type of a dataclass FIELD (its layout is what the field's serialiser writes)
+            oname = ge.fresh('TF')
+            od = {'name': oname, 'fields': [{'name': 'shape', 'ty': ty}, {'name': 'n', 'ty': 'int', 'default': {'value': {'i': '1'}}}], 'opts': {}, 'hook': None}
+            ge.decl['classes'].append(od)
+            ge.class_info[oname] = od
+            ty, v = {'cls': [oname, []]}, {'shape': v}
         try:
             wire = ENC.enc(v)
             json.dumps(wire)
@@ -1186,11 +1220,14 @@ def scenarios_hashtable(seed, n=0):
         for e in (False, True):
             for f in (False, True):
                 for x in (False, True):
-                    n += 1
-                    d = {'name': f'Hc{n}', 'fields': [{'name': 'x', 'ty': 'int', 'default': {'value': {'i': '0'}}}],
-                         'opts': {'unsafe_hash': u, 'eq': e, 'frozen': f}, 'hook': None, 'explicit_hash': x}
-                    out.append({'id': f'h{n}', 'decl': {'enums': [], 'subs': [], 'classes': []}, 'op': 'process', 'decls': [d],
-                                'explicit_hash': x, 'stream': 'hashcube', 'spell': 0})
+                    for q in (False, True):
+                        # q: the class body writes its own __eq__ (Python then puts an implicit `__hash__ = None` into the class
+                        # dict, which is NOT an explicit __hash__)
+                        n += 1
+                        d = {'name': f'Hc{n}', 'fields': [{'name': 'x', 'ty': 'int', 'default': {'value': {'i': '0'}}}],
+                             'opts': {'unsafe_hash': u, 'eq': e, 'frozen': f}, 'hook': None, 'explicit_hash': x, 'explicit_eq': q}
+                        out.append({'id': f'h{n}', 'decl': {'enums': [], 'subs': [], 'classes': []}, 'op': 'process', 'decls': [d],
+                                    'explicit_hash': x, 'explicit_eq': q, 'stream': 'hashcube', 'spell': 0})
     return out
 
 
@@ -1217,8 +1254,15 @@ def scenarios_shapes(seed, n, op='render'):
                 seen_default = False
                 for k, fn in enumerate(r.sample([x for x in FIELD_NAMES if x != 'tag'], r.randint(1, 3))):
                     f = {'name': fn, 'ty': shape(depth + 1)}
-                    if r.random() < 0.4:
+                    q = r.random()
+                    if q < 0.35:
                         f['spec'] = {'aliases': [fn + '_alias', 'al%d' % k]}
+                    elif q < 0.5:
+                        # several accepted names given as the user's own LIST (`field(in_names=[...])`)
+                        f['spec'] = {'in_names': [fn + 'In', fn], 'in_names_as_list': True}
+                    elif q < 0.58:
+                        # a field that is read but never written (`exclude=True`) and has no default: it is required on input
+                        f['spec'] = {'exclude': True}
                     fields.append(f)
                     if r.random() < 0.12:
                         fields.append({'name': 'ni%d' % k, 'ty': 'int', 'default': {'value': ENC.enc(0)}, 'spec': {'init': False}})
@@ -1317,7 +1361,7 @@ def scenarios_tuplelayout(seed, n, op='from_data'):
         name = ge.fresh('T')
         fields = []
         seen_default = False
-        tys = ['int', 'str', 'float', 'bool', {'seq': ['list', 'int']}, 'NoneType', 'bytes']
+        tys = ['int', 'str', 'float', 'bool', {'seq': ['list', 'int']}, 'NoneType', 'bytes', {'union': ['int', 'NoneType']}, {'union': ['str', 'NoneType']}]
         for k in range(r.randint(1, 5)):
             ty = r.choice(tys)
             f = {'name': 'f%d' % k, 'ty': ty}
@@ -1347,6 +1391,10 @@ def scenarios_tuplelayout(seed, n, op='from_data'):
         nreq = sum(1 for f in pos if 'default' not in f)
         ln = r.choice([nreq, len(pos), r.randint(0, len(pos) + 1)])
         items = [ge.valid(f['ty'], 2) for f in pos[:ln]] + [ge.rscalar() for _ in range(max(0, ln - len(pos)))]
+        if items and r.random() < 0.15:
+            # a record that ENDS in None (for a trailing field that admits None, or not): the caller's list keeps its length
+            k = r.randint(1, min(2, len(items)))
+            items[-k:] = [None] * k
         if items and r.random() < 0.6:
             j = r.randrange(len(items))
             items[j] = r.choice([None, 'bad', 3.5, [1], 7, b'x', True])
@@ -1426,13 +1474,24 @@ def scenarios_handlers(seed, n):
             ge.decl['classes'].append(ds)
             ge.class_info[sub] = {'name': sub, 'fields': ofields + ds['fields'], 'opts': ds['opts'], 'hook': None}
             target = sub
-        shape = r.choice(['cls', 'list', 'union', 'dictval', 'int', 'listint', 'inner'])
+        shape = r.choice(['cls', 'list', 'union', 'dictval', 'int', 'listint', 'inner', 'condint', 'listcondint'])
         tcls = {'cls': [target, []]}
+        condint = {'ann': ['int', [{'cond': {'stock': 'Positive', 'name': 'positive'}, 'fmt': {'adjective': ['positive', 'a']}}]]}
         ty = {'cls': tcls, 'list': {'seq': ['list', tcls]}, 'union': {'union': [tcls, 'int']}, 'dictval': {'map': ['dict', ['str', tcls]]},
-              'int': 'int', 'listint': {'seq': ['list', 'int']}, 'inner': {'cls': [inner, []]}}[shape]
-        call = maybe_custom(0.5)
+              'int': 'int', 'listint': {'seq': ['list', 'int']}, 'inner': {'cls': [inner, []]},
+              # the customised type under a condition: the inner conversion goes through the same handlers
+              'condint': condint, 'listcondint': {'seq': ['list', condint]}}[shape]
+        call = maybe_custom(0.5 if 'condint' not in shape else 0.9)
         pre = []
-        if r.random() < 0.3:
+        if call and len(call) == 1 and call[0].get('exactOnly') and r.random() < 0.4:
+            # the same mapping OBJECT passed to an earlier call with other contents (a registry that is edited between calls)
+            other = dict(handler(['int']), exactOnly=True, share='reg')
+            call = [dict(call[0], share='reg')]
+            try:
+                pre = [{'ty': ty, 'val': ENC.enc(ge.valid(ty)), 'handlers': {'globals': [other]}}]
+            except Exception:
+                pre = []
+        if not pre and r.random() < 0.3:
             # the SAME function-form handler object in two roles (a call's custom= and an enclosing class's custom=), and an
             # earlier conversion of the nested class in the other role, in the same interpreter
             shared = dict(handler(['int'], exact=False), share='s1')
@@ -1536,6 +1595,13 @@ def scenarios_io(seed, n):
         def rty(depth):
             p = r.random()
             if depth >= 2 or p < 0.4:
+                if r.random() < 0.12:
+                    # a user subclass of str / int: it is written as the plain scalar
+                    base = r.choice(['str', 'str', 'int'])
+                    nm = 'My' + base.title()
+                    if not any(x[0] == nm for x in ge.decl['subs']):
+                        ge.decl['subs'].append([nm, base, {}])
+                    return {'sub': [nm, base]}
                 return r.choice(['int', 'str', 'bool', 'float', 'NoneType', {'union': ['int', 'NoneType']}, {'lit': ['a', {'i': '1'}]}])
             if p < 0.6:
                 return {'seq': [r.choice(['list', 'Sequence', 'tuple']), rty(depth + 1)]}
@@ -1557,6 +1623,8 @@ def scenarios_io(seed, n):
             return {'cls': [name, []]}
 
         def rval(ty):
+            if isinstance(ty, dict) and 'sub' in ty:
+                return r.choice(IO_STRS) if ty['sub'][1] == 'str' else r.choice([0, 3, -7])
             if ty == 'str':
                 return r.choice(IO_STRS)
             if ty == 'float':
@@ -1832,4 +1900,126 @@ def scenarios_inherited_hook(seed, n, op='try_collect'):
         elif wrap < 0.45:
             ty, v = {'map': ['dict', ['str', ty]]}, {'k': v}
         out.append({'id': f'ih{seed}:{i}', 'decl': ge.decl, 'op': op, 'ty': ty, 'val': ENC.enc(v), 'spell': r.randrange(2), 'stream': 'inherited-hook'})
+    return out
+
+
+def scenarios_special_unions(seed, n, op='from_data'):
+    """C11 / C07: unions with members that (a) accept None although they are not NoneType (an enum with a None-valued member)
+    placed LEFT of None, (b) are rejected with a choice of their own which typing does not flatten away (an enum over values of
+    several types, an Annotated union under a condition): one child per member, each the member's own tree"""
+    g = random.Random(seed)
+    out = []
+    for i in range(n):
+        ge = Gen(g.randrange(1 << 62), max_depth=1, classes=False)
+        r = ge.r
+        en = ge.fresh('EN')
+        members = r.choice([[None, 'a'], [None], [{'i': '0'}, 'a', None], [{'i': '1'}, ENC.enc(1.5)], ['x', {'i': '2'}, True]])
+        ge.decl['enums'].append([en, members])
+        inner_u = {'ann': [{'union': ['str', 'bytes']}, [{'cond': {'stock': 'NonEmpty', 'name': 'non-empty'}, 'fmt': {'adjective': ['non-empty', 'a']}}]]}
+        shape = r.choice(['opt_enum', 'enum_mid', 'nested_choice', 'bool_enum', 'list_opt_enum', 'field'])
+        if shape == 'opt_enum':
+            ty = {'union': [{'enum': en}, 'NoneType']}
+        elif shape == 'enum_mid':
+            ty = {'union': ['int', {'enum': en}, 'NoneType', 'str']}
+        elif shape == 'nested_choice':
+            ty = {'union': [r.choice(['int', 'bool']), inner_u]}
+        elif shape == 'bool_enum':
+            ty = {'union': ['bool', {'enum': en}]}
+        elif shape == 'list_opt_enum':
+            ty = {'seq': ['list', {'union': [{'enum': en}, 'NoneType']}]}
+        else:
+            cn = ge.fresh('SU')
+            d = {'name': cn, 'fields': [{'name': 'level', 'ty': {'union': [{'enum': en}, 'NoneType']}, 'default': {'value': None}},
+                                       {'name': 'u', 'ty': {'union': ['int', inner_u]}, 'default': {'value': {'i': '0'}}}], 'opts': {}, 'hook': None}
+            ge.decl['classes'].append(d)
+            ge.class_info[cn] = d
+            ty = {'cls': [cn, []]}
+        leaf = lambda: r.choice([None, None, 'a', 'x', 0, 1, 2, 0.5, True, '', b'', b'ab', [1], {'k': 1}, 'zz', 3.5])
+        v = leaf()
+        if shape == 'list_opt_enum':
+            v = [leaf() for _ in range(r.randint(0, 3))]
+        elif shape == 'field':
+            v = {k: leaf() for k in r.sample(['level', 'u'], r.randint(0, 2))}
+        try:
+            wire = ENC.enc(v)
+            json.dumps(wire)
+        except Exception:
+            continue
+        out.append({'id': f'su{seed}:{i}', 'decl': ge.decl, 'op': op, 'ty': ty, 'val': wire, 'spell': r.randrange(2), 'stream': 'special-unions'})
+    return out
+
+
+def scenarios_instances_into(seed, n):
+    """C09: `into_data(instance)` of dataclass instances, also ones that LACK an attribute (an `init=False` field with a default
+    factory that no hook filled, an instance built unchecked): the call may fail, it may not give the instance new attributes"""
+    g = random.Random(seed)
+    out = []
+    for i in range(n):
+        ge = Gen(g.randrange(1 << 62), max_depth=1, classes=True)
+        r = ge.r
+        cn = ge.fresh('IN')
+        fields = [{'name': 'a', 'ty': 'int'}, {'name': 'cache', 'ty': {'seq': ['list', 'int']}, 'default': {'factory': 'list'}, 'spec': {'init': False}},
+                  {'name': 'b', 'ty': 'str', 'default': {'value': 's'}}]
+        if r.random() < 0.5:
+            fields[1]['spec']['exclude'] = True
+        d = {'name': cn, 'fields': fields, 'opts': {'frozen': r.random() < 0.5, 'out_format': r.choice(['struct', 'struct', 'tuple'])}, 'hook': None}
+        ge.decl['classes'].append(d)
+        ge.class_info[cn] = d
+        have = [['a', {'i': str(r.choice([1, 2]))}], ['b', 'q']]
+        if r.random() < 0.4:
+            have.append(['cache', {'l': [{'i': '1'}]}])
+        obj = {'obj': [cn, have, [k for k, _ in have]]}
+        v = obj if r.random() < 0.6 else r.choice([{'l': [obj]}, {'d': [['k', obj]]}])
+        out.append({'id': f'ii{seed}:{i}', 'decl': ge.decl, 'op': 'into_dyn', 'val': v, 'spell': 0, 'stream': 'instances-into'})
+    return out
+
+
+def scenarios_generic_nested(seed, n, op='from_data'):
+    """C02 / C17: a generic dataclass whose field reaches its type variable only THROUGH another subscripted generic dataclass
+    (`items: List[Inner[T]]`, `Dict[str, Inner[T]]`, `Optional[Inner[T]]`), subscripted with a scalar type; values of the
+    right and of every wrong kind at the leaf"""
+    g = random.Random(seed)
+    out = []
+    for i in range(n):
+        ge = Gen(g.randrange(1 << 62), max_depth=1, classes=True)
+        r = ge.r
+        inner, outer = ge.fresh('GI'), ge.fresh('GO')
+        di = {'name': inner, 'fields': [{'name': 'v', 'ty': tv('T')}], 'opts': {}, 'hook': None, 'tvars': ['T']}
+        it = {'cls': [inner, [tv('T')]]}
+        fty = r.choice([{'seq': ['list', it]}, {'map': ['dict', ['str', it]]}, {'union': [it, 'NoneType']}, it, {'tuple': [it, 'int']},
+                        {'cls': [inner, [it]]}])
+        do = {'name': outer, 'fields': [{'name': 'items', 'ty': fty}], 'opts': {}, 'hook': None, 'tvars': ['T']}
+        ge.decl['classes'] += [di, do]
+        ge.class_info[inner], ge.class_info[outer] = di, do
+        arg = r.choice(['int', 'str', 'bool', 'float'])
+        via_sub = r.random() < 0.3
+        if via_sub:
+            sub = ge.fresh('GS')
+            ds = {'name': sub, 'fields': [], 'opts': {}, 'hook': None, 'base': {'cls': [outer, [tv('U')]]}, 'tvars': ['U']}
+            ge.decl['classes'].append(ds)
+            ge.class_info[sub] = ds
+            ty = {'cls': [sub, [arg]]}
+        else:
+            ty = {'cls': [outer, [arg]]}
+        leaf = r.choice([1, 's', True, 2.5, None, [1], 7, 'x', 1j])
+        lv = {'v': leaf}
+        if 'seq' in fty:
+            items = [lv]
+        elif 'map' in fty:
+            items = {'k': lv}
+        elif 'tuple' in fty:
+            items = [lv, 3]
+        elif 'cls' in fty and fty is not it:
+            items = {'v': lv}
+        else:
+            items = lv
+        try:
+            wire = ENC.enc({'items': items})
+            json.dumps(wire)
+        except Exception:
+            continue
+        # what the statement says, computed from the kinds alone: the leaf must be admissible for the type the class was subscripted with
+        ok = {'int': (int,), 'str': (str,), 'bool': (bool,), 'float': (int, float)}[arg]
+        expect = 'accept' if isinstance(leaf, ok) and not (arg == 'bool' and type(leaf) is not bool) else 'reject'
+        out.append({'id': f'gn{seed}:{i}', 'decl': ge.decl, 'op': op, 'ty': ty, 'val': wire, 'spell': 0, 'stream': 'generic-nested', 'expect': expect})
     return out
